@@ -138,6 +138,15 @@ def plans_long(rng, n, trig):
     return plans
 
 
+class Fr(bytes):
+    """A data-segment frame that remembers the bare ACK frames sent on its flow just before it."""
+    pre = ()
+
+
+def with_pre(xs):
+    return [y for x in xs for y in (list(getattr(x, "pre", ())) + [x])]
+
+
 def run_sessions(ctx, cfg, stream, plans):
     """Deliver `stream` once per plan, each on a fresh flow.  Returns per plan the list of (segment, reply-or-None)."""
     rng = ctx.rng
@@ -183,9 +192,16 @@ def run_sessions(ctx, cfg, stream, plans):
             ack = (a["seq"] + 1) & 0xFFFFFFFF
             seq = (isn + 1) & 0xFFFFFFFF
             segs = []
+            # some clients put bare ACKs (the third packet of the handshake, window updates, keep-alives) before and between
+            # their data segments: they carry no data and change nothing
+            acks = rng.random() < 0.12
+            if acks and rng.random() < 0.5:
+                segs.append((k, None, seq, ack, e.tcp(sp, dp, seq, ack, ACK, b"")))
             for seg in cut(stream, cuts):
                 segs.append((k, seg, seq, ack, e.tcp(sp, dp, seq, ack, PSH | ACK, seg)))
                 seq = (seq + len(seg)) & 0xFFFFFFFF
+                if acks and rng.random() < 0.5:
+                    segs.append((k, None, seq, ack, e.tcp(sp, dp, rng.choice([seq, seq, (seq - 1) & 0xFFFFFFFF]), ack, ACK, b"")))
             per_sess.append(segs)
         frames, owner = [], []
         depth = max([len(x) for x in per_sess] + [0])
@@ -203,7 +219,14 @@ def run_sessions(ctx, cfg, stream, plans):
                     frames.append(x[4])
         rs = ctx.send_many(frames)
         per = [[] for _ in chunk]
+        pend = {}
         for (k, seg, seq, ack), f, r in zip(owner, frames, rs):
+            if seg is None:
+                ctx.stats["bare_acks_between_segments"] += 1
+                pend.setdefault(k, []).append(f)
+                continue
+            f = Fr(f)
+            f.pre = pend.pop(k, [])         # (bare ACKs sent before this segment: part of the replay)
             per[k].append((seg, seq, ack, f, r))
         out.extend(zip(chunk, per))
     return out
@@ -245,7 +268,7 @@ def judge(ctx, kind, stream, trig, ref_payload, cuts, segs, cfg):
             siglen = 28 if kind.startswith("rpc") else stream.find(b"/") + 1
             ctx.violation("%s:%s:%s" % (kind, key, "cut_in_signature" if kind != "http_neg" and first < siglen else "cut_after_signature"),
                           "%s; stream of %d bytes cut at %s" % (what, len(stream), cuts), observed=(r.reply.hex() if r.reply else r.kind)[:300],
-                          expected="bare ACK before the trigger byte, the reply exactly at it", frames=[x[3] for x in segs[:i + 1]],
+                          expected="bare ACK before the trigger byte, the reply exactly at it", frames=with_pre([x[3] for x in segs[:i + 1]]),
                           extra={"stream": stream.hex(), "cuts": cuts})
             return False
         pos = end
@@ -255,7 +278,7 @@ def judge(ctx, kind, stream, trig, ref_payload, cuts, segs, cfg):
 def shard(ctx, budget_s, n_http, n_rpc, maxlen):
     rng = ctx.rng
     deadline = time.time() + budget_s
-    cfg = gen.rnd_config(rng, deny=False, logger="n", level=0)
+    cfg = gen.rnd_config(rng, deny=False, logger=rng.choice("nnnncl"), level=rng.choice([0, 0, 2, 3, 4, 5]))
     ctx.case(cfg)
     streams = gen_streams(rng, n_http, n_rpc, maxlen)
     negs = negatives(rng, streams)
@@ -307,7 +330,7 @@ def shard(ctx, budget_s, n_http, n_rpc, maxlen):
             trig = next((i for i, x in enumerate(bw[0]) if x[4].kind == "R" and pkt.parse(x[4].reply).get("data")), None)
             if trig is None:
                 ctx.violation(okind + ":bytewise_unanswered", "stream answered in one segment but never when delivered byte by byte", observed="no reply",
-                              frames=[x[3] for x in bw[0][:60]], extra={"stream": stream.hex(), "cuts": list(range(1, len(stream)))})
+                              frames=with_pre([x[3] for x in bw[0][:60]]), extra={"stream": stream.hex(), "cuts": list(range(1, len(stream)))})
                 continue
         if bw and ref_payload is not None and kind != "rpc_odd":
             firstrep = next((i for i, x in enumerate(bw[0]) if x[4].kind == "R" and pkt.parse(x[4].reply).get("data")), None)
